@@ -265,7 +265,7 @@ Lemma recipient_name mode a r : newrcpt mode a = Some r ->
     match mode with
     | Local => parse_mailbox_name l = Some (r_mailbox r)
     | Full => exists m, parse_mailbox_name l = Some m /\ r_mailbox r = m ++ 64 :: canonical_domain d
-    | Domain => r_mailbox r = canonical_domain d
+    | Domain => r_mailbox r = canonical_domain d /\ (l = [] \/ exists m, parse_mailbox_name l = Some m)
     end.
 Proof.
   intros H. apply new_recipient_inv in H as [l [d [P [V [E _]]]]]. exists l, d. split; [exact P|]. split; [exact V|].
@@ -279,8 +279,10 @@ Proof.
     destruct a as [|a0 a']; [discriminate|].
     destruct ((a0 =? 91) && (last (a0 :: a') 0 =? 93)) eqn:B.
     + apply andb_true_iff in B as [B _]. apply N.eqb_eq in B. subst. rewrite parse_email_bracket in P. discriminate.
-    + rewrite P in E. destruct (match l with [] => Some [] | _ :: _ => parse_mailbox_name l end) as [l'|]; [|discriminate].
-      destruct d as [|d0 d']; [congruence|]. rewrite V in E. congruence.
+    + rewrite P in E. destruct l as [|l0 l1].
+      * destruct d as [|d0 d']; [congruence|]. rewrite V in E. split; [congruence | left; reflexivity].
+      * destruct (parse_mailbox_name (l0 :: l1)) as [l'|] eqn:Q; [|discriminate].
+        destruct d as [|d0 d']; [congruence|]. rewrite V in E. split; [congruence | right; eauto].
 Qed.
 
 (** ** Every string the code lower-cases with strings.ToLower is ASCII (so Go's Unicode rules
@@ -362,7 +364,7 @@ Proof.
   destruct mode.
   - congruence.
   - destruct N as [m [N1 ->]], N' as [m' [N1' ->]]. rewrite C. congruence.
-  - congruence.
+  - destruct N as [-> _], N' as [-> _]. exact C.
 Qed.
 
 End Naming.
@@ -424,10 +426,12 @@ Proof.
   destruct mode.
   - apply Q; assumption.
   - destruct N as [m [N1 ->]], N' as [m' [N1' ->]]. rewrite (Q m m' N1 N1'). reflexivity.
-  - congruence.
+  - destruct N as [-> _], N' as [-> _]. reflexivity.
 Qed.
 
 End Plus.
+
+Definition no_ip (_ : str) : bool := false.
 
 (** ** Non-vacuity: the hypotheses of the theorems are satisfiable, in every mode *)
 (* "@r.example:\"Joe.Q\"+x@[IPv6:2001:DB8::A]" accepted in each mode when the literal parses *)
